@@ -42,6 +42,29 @@ def run(ctx):
                 "(3) free-running concurrent reporters (2-8 goroutines, overlapping and replayed index ranges, seeded marks, limits) on the real engine, start/end-logged, judged by C07Judge "
                 "(position sizes are distinct so announced progress deltas identify counted positions); non-trivial = data report step / concurrent case; distinct by (status, op, #events, result)")
     ctx.assumptions += ["atomic CAS/add primitives of sync/atomic", "quiescent process restarts only (a crash between the progress event and the index event is outside the stated quantifier, DESIGN F8)"]
+    if not ctx.quick():
+        # unbounded arithmetic: AcctInd.tla (positions and sizes are arbitrary integers, 4 concurrent reports) - Apalache discharges
+        # Init => IndInv, IndInv /\ Next => IndInv', IndInv => Once /\ Bytes; the refuted variant (>= instead of > in the CAS) must fail
+        import os, re
+        mod = os.path.join(vlib.SPEC, "AcctInd.tla")
+        obligations = [("initiation", ["--cinit=CInit", "--init=Init", "--inv=IndInv", "--length=0"]),
+                       ("consecution", ["--cinit=CInit", "--init=IndInit", "--inv=IndInv", "--length=1"]),
+                       ("implication", ["--cinit=CInit", "--init=IndInit", "--inv=Props", "--length=0"])]
+        apal = {}
+        for name, args in obligations:
+            res, tail = vlib.run_apalache(ctx.scratch, mod, args)
+            apal[name] = res
+            if res != "ok":
+                raise vlib.Inconclusive("Apalache obligation %s of AcctInd.tla: %s\n%s" % (name, res, tail))
+        neg = ctx.path("AcctIndNeg.tla")
+        src = open(mod).read().replace("MODULE AcctInd ", "MODULE AcctIndNeg ").replace("uniq[r] /\\ pos[r] > hw", "uniq[r] /\\ pos[r] >= hw")
+        open(neg, "w").write(src)
+        res, tail = vlib.run_apalache(ctx.scratch, neg, obligations[1][1])
+        apal["refuted_variant(>=)"] = res
+        if res != "violation":
+            raise vlib.Inconclusive("Apalache: the refuted variant of AcctInd.tla (>= in the CAS) is not refuted: %s\n%s" % (res, tail))
+        ctx.extra["apalache_inductive_invariant"] = apal
+        ctx.stages.append({"apalache": "AcctInd", "obligations": apal})
     res = ctx.tlc("Acct", "acct-quick.cfg" if ctx.quick() else "acct-full.cfg", timeout=1500, heap="8g")
     if res.violated:
         raise vlib.Inconclusive("Acct model violates %s\n%s" % (res.violated, res.out[-1500:]))
